@@ -7,6 +7,7 @@
 #include <windows.h>  // the stub in /verif/stubs
 
 #include <errno.h>
+#include <pthread.h>
 #include <stdio.h>
 #include <stdlib.h>
 
@@ -17,23 +18,23 @@ const int REPROC_SIGKILL = 137;
 const int REPROC_SIGTERM = 143;
 
 // ---------------------------------------------------------------- Win32 stubs
-static DWORD last_error;
+static __thread DWORD last_error;
 void SetLastError(DWORD e) { last_error = e; }
 DWORD GetLastError(void) { return last_error; }
 // what the library told Win32 about handles (the Windows halves of C10 / C11, as far as they can be
 // observed at the CreateProcessW boundary)
-static int win_fail_at;   // 1 SetHandleInformation, 2 InitializeProcThreadAttributeList (filling call), 3 UpdateProcThreadAttribute, 4 CreateProcessW
-static DWORD win_fail_err;
-static int n_attr_deleted;
-static HANDLE rec_inheritable[16], rec_list[16], rec_closed[16], rec_std[3];
-static int n_inheritable, n_list, n_closed, rec_inherit_flag, rec_std_flag, rec_ext_flag, rec_has_list;
+static __thread int win_fail_at;   // 1 SetHandleInformation, 2 InitializeProcThreadAttributeList (filling call), 3 UpdateProcThreadAttribute, 4 CreateProcessW
+static __thread DWORD win_fail_err;
+static __thread int n_attr_deleted;
+static __thread HANDLE rec_inheritable[16], rec_list[16], rec_closed[16], rec_std[3];
+static __thread int n_inheritable, n_list, n_closed, rec_inherit_flag, rec_std_flag, rec_ext_flag, rec_has_list;
 BOOL SetHandleInformation(HANDLE h, DWORD mask, DWORD flags)
 {
   if (win_fail_at == 1) { SetLastError(win_fail_err); return 0; }
   if ((mask & HANDLE_FLAG_INHERIT) && (flags & HANDLE_FLAG_INHERIT) && n_inheritable < 16) rec_inheritable[n_inheritable++] = h;
   return 1;
 }
-struct verif_attr_list { int dummy[8]; };
+struct verif_attr_list { HANDLE *handles; size_t n; int dummy[4]; };   // Windows keeps the caller's pointer, not a copy
 BOOL InitializeProcThreadAttributeList(LPPROC_THREAD_ATTRIBUTE_LIST l, DWORD n, DWORD flags, SIZE_T *size)
 {
   (void) n; (void) flags;
@@ -52,8 +53,8 @@ BOOL UpdateProcThreadAttribute(LPPROC_THREAD_ATTRIBUTE_LIST l, DWORD flags, uint
   (void) l; (void) flags; (void) prev; (void) ret;
   if (win_fail_at == 3) { SetLastError(win_fail_err); return 0; }
   if (attr == PROC_THREAD_ATTRIBUTE_HANDLE_LIST) {
-    n_list = 0;
-    for (size_t i = 0; i < size / sizeof(HANDLE) && n_list < 16; i++) rec_list[n_list++] = ((HANDLE *) value)[i];
+    l->handles = (HANDLE *) value;
+    l->n = size / sizeof(HANDLE);
   }
   return 1;
 }
@@ -88,9 +89,9 @@ wchar_t *GetEnvironmentStringsW(void)
 BOOL FreeEnvironmentStringsW(wchar_t *block) { free(block); return 1; }
 
 // captured by CreateProcessW
-static wchar_t *cap_cmd, *cap_env;
-static size_t cap_env_units;
-static int create_calls;
+static __thread wchar_t *cap_cmd, *cap_env;
+static __thread size_t cap_env_units;
+static __thread int create_calls;
 BOOL CreateProcessW(LPCWSTR app, LPWSTR cmdline, LPSECURITY_ATTRIBUTES pa, LPSECURITY_ATTRIBUTES ta, BOOL inherit,
                     DWORD flags, LPVOID env, LPCWSTR cwd, LPSTARTUPINFOW si, LPPROCESS_INFORMATION pi)
 {
@@ -103,6 +104,11 @@ BOOL CreateProcessW(LPCWSTR app, LPWSTR cmdline, LPSECURITY_ATTRIBUTES pa, LPSEC
   rec_std[1] = si->hStdOutput;
   rec_std[2] = si->hStdError;
   rec_has_list = rec_ext_flag && ((STARTUPINFOEXW *) si)->lpAttributeList != NULL;
+  n_list = 0;
+  if (rec_has_list) {
+    struct verif_attr_list *al = ((STARTUPINFOEXW *) si)->lpAttributeList;
+    for (size_t i = 0; al->handles && i < al->n && n_list < 16; i++) rec_list[n_list++] = al->handles[i];   // read now, through the pointer
+  }
   if (win_fail_at == 4) { SetLastError(win_fail_err); return 0; }
   free(cap_cmd);
   free(cap_env);
@@ -531,6 +537,8 @@ static void check_handles(void)
     }
     if (proc != INVALID_HANDLE_VALUE) hviol("win-fault-handle-set", "a process handle was stored although start failed", h);
     if (create_calls != (fa == 4 ? 1 : 0)) hviol("win-fault-process-created", "CreateProcessW called after an earlier step had failed", h);
+    if (create_calls && fa != 4 && n_list < 3)
+      hviol("win-process-created-without-handle-list", "the handle list could not be set up, yet CreateProcessW was called with bInheritHandles: every inheritable handle of the parent goes to the child", h);
     for (int j = 0; j < n_closed; j++)
       for (int i = 0; i < 4; i++)
         if (rec_closed[j] == h[i]) hviol("win-closes-callers-handle", "process_start closed one of the handles it was given (failing start)", h);
@@ -704,7 +712,8 @@ static void check_life(void)
   HANDLE hh[4] = { h, h, h, h };
   char msg[200];
   // wait: every exit code 0..255 comes back as it is; the CTRL-BREAK exit code means SIGTERM
-  scripted_exit_code = st_life_cases % 3 == 0 ? 3221225786u : (DWORD) (rnd() % 256);
+  static const DWORD BIG[] = { 256, 258, 259, 1000, 65535, 0x7fffffffu };   // Windows exit codes are 32 bits wide
+  scripted_exit_code = st_life_cases % 3 == 0 ? 3221225786u : st_life_cases % 7 == 1 ? BIG[rnd() % 6] : (DWORD) (rnd() % 256);
   n_wait = 0;
   int r = process_wait(h);
   int want = scripted_exit_code == 3221225786u ? REPROC_SIGTERM : (int) scripted_exit_code;
@@ -729,12 +738,71 @@ static void check_life(void)
     hviol("win-kill-target", msg, hh);
   }
   if (process_pid(h) != (int) pid_of(h)) hviol("win-pid", "process_pid is not the id of the handle", hh);
+  n_closed = 0;
+  HANDLE d = process_destroy(h);
+  int mine = 0;
+  for (int j = 0; j < n_closed; j++) mine += rec_closed[j] == h;
+  if (mine != 1 || n_closed != 1 || d != INVALID_HANDLE_VALUE && d != NULL) {
+    snprintf(msg, sizeof msg, "process_destroy closed the process handle %d times (%d CloseHandle calls in all)", mine, n_closed);
+    hviol("win-destroy-closes", msg, hh);
+  }
+}
+
+static long mt_reps, mt_starts, mt_viol;
+static pthread_mutex_t mt_out = PTHREAD_MUTEX_INITIALIZER;
+static void *mt_thread(void *arg)
+{
+  intptr_t id = (intptr_t) arg;
+  for (long k = 0; k < mt_reps; k++) {
+    HANDLE h[4];
+    for (int i = 0; i < 4; i++) h[i] = (HANDLE) (intptr_t) (0x10000 * id + 0x100 * (k % 200) + 0x10 * (i + 1));
+    struct process_options o;
+    memset(&o, 0, sizeof o);
+    o.env.behavior = REPROC_ENV_EXTEND;
+    o.handle.in = h[0];
+    o.handle.out = h[1];
+    o.handle.err = h[2];
+    o.handle.exit = h[3];
+    const char *argv[] = { "prog", "x", NULL };
+    create_calls = 0;
+    n_inheritable = n_list = n_closed = 0;
+    HANDLE proc = INVALID_HANDLE_VALUE;
+    int r = process_start(&proc, argv, o);
+    __atomic_fetch_add(&mt_starts, 1, __ATOMIC_RELAXED);
+    int bad = r < 0 || create_calls != 1 || n_list != 4 || rec_std[0] != h[0] || rec_std[1] != h[1] || rec_std[2] != h[2];
+    for (int i = 0; i < 4 && !bad; i++) {
+      int found = 0;
+      for (int j = 0; j < n_list; j++) found |= rec_list[j] == h[i];
+      bad |= !found;
+    }
+    if (bad) {
+      __atomic_fetch_add(&mt_viol, 1, __ATOMIC_RELAXED);
+      pthread_mutex_lock(&mt_out);
+      printf("V\twin-cross-talk\tthread=%ld rep=%ld\tthe handles that reached CreateProcessW are not the ones this thread passed (list %p %p %p %p, own %p %p %p %p)\n",
+             (long) id, k, rec_list[0], rec_list[1], rec_list[2], rec_list[3], h[0], h[1], h[2], h[3]);
+      pthread_mutex_unlock(&mt_out);
+    }
+  }
+  return NULL;
 }
 
 int main(int argc, char **argv)
 {
   wrap_init();
   wrap_reset_case();
+  if (argc >= 6 && !strcmp(argv[1], "--mt")) {
+    // process_start of the Windows back-end from several threads at once (ThreadSanitizer build):
+    // every thread has its own handles and must find exactly those in what reaches CreateProcessW
+    long reps = atol(argv[4]);
+    int nt = 4;
+    pthread_t th[8];
+    mt_reps = reps;
+    set_parent(NULL);
+    for (int i = 0; i < nt; i++) pthread_create(&th[i], NULL, mt_thread, (void *) (intptr_t) (i + 1));
+    for (int i = 0; i < nt; i++) pthread_join(th[i], NULL);
+    printf("H\t%ld\t%ld\n", __atomic_load_n(&mt_starts, __ATOMIC_RELAXED), __atomic_load_n(&mt_viol, __ATOMIC_RELAXED));
+    return mt_viol ? 1 : 0;
+  }
   if (argc >= 6 && !strcmp(argv[1], "--redirect")) {
     long w = atol(argv[2]), nw = atol(argv[3]);
     rs = (uint64_t) atol(argv[5]) * 0x9E3779B97F4A7C15ULL + (uint64_t) w * 313 + 9;
